@@ -131,6 +131,55 @@ def containsHex : Str → Bool
   | _ :: r => containsHex r
   | [] => false
 
+/-- L2b: operational model vs implementation, on one parser outcome -/
+def diffParse (isP : Bool) (mp : R Parsed) (ip : Except String ImplParse) (v : Verdict) : Verdict :=
+  match mp, ip with
+    | .error e, .error c => v.diffIf (e.name != c) s!"CassandraParser error class model={e.name} impl={c}"
+    | .error e, .ok _ => v.diffIf true s!"CassandraParser model rejects ({e.name}), impl accepts"
+    | .ok _, .error c => v.diffIf true s!"CassandraParser model accepts, impl rejects ({c})"
+    | .ok r, .ok i =>
+        let p := r.pre
+        let v := v.diffIf (p.S != i.S || p.A != i.A || (isP && p.O != i.O)) s!"CassandraParser sizes model={p.S},{p.A},{p.O} impl={i.S},{i.A},{i.O}"
+        let v := v.diffIf (roundX p.disc != i.disc) s!"CassandraParser discount model={p.disc} impl={i.disc}"
+        let v := v.diffIf ((tableOf r.st.wT p.S p.A p.S).map roundX != i.T) s!"CassandraParser T model={(tableOf r.st.wT p.S p.A p.S)} impl={i.T}"
+        let v := v.diffIf ((tableOf r.st.wR p.S p.A p.S).map roundX != i.R) s!"CassandraParser R model={(tableOf r.st.wR p.S p.A p.S)} impl={i.R}"
+        v.diffIf (isP && (tableOf r.st.wW p.S p.A p.O).map roundX != i.W) s!"CassandraParser W model={(tableOf r.st.wW p.S p.A p.O)} impl={i.W}"
+
+def sameImpl (a b : Except String ImplParse) : Bool :=
+  match a, b with
+  | .error c, .error c' => c == c'
+  | .ok x, .ok y => x.S == y.S && x.A == y.A && x.O == y.O && x.disc == y.disc && x.T == y.T && x.R == y.R && x.W == y.W
+  | _, _ => false
+
+/-- `reuse kind hexA hexB | fresh-outcome reused-outcome` : text B on a parser object that parsed text A before -/
+def reuseCmd : P String := do
+  let kt ← P.tok
+  let k : Kind := if kt == "pomdp" then .pomdp else .mdp
+  let ha ← P.tok
+  let hb ← P.tok
+  P.bar
+  let fresh ← pImplParse
+  let reused ← pImplParse
+  P.eof
+  match decodeText ha, decodeText hb with
+  | some ta, some tb =>
+    match parseModelInfo (splitLines ta) {} [] with
+    | .error _ => pure "skip reuse_first_preamble_error"
+    | .ok (prev, _) =>
+      let huge : Bool := match parseModelInfo (splitLines tb) {} [] with
+        | .ok (p, _) => decide (p.S * p.A * (max p.S p.O) > 100000) || decide (p.S > 1000) || decide (p.A > 1000) || decide (p.O > 1000)
+        | .error _ => false
+      if huge then pure "skip huge_sizes" else
+      let v : Verdict := { tag := "reuse" ++ (match reused with | .ok _ => " accepted" | .error _ => " rejected") }
+      -- model of the reused object (name tables of A carried over) vs the reused implementation object
+      let v := diffParse (k == .pomdp) (parseWith flags k prev tb) reused v
+      -- and the fresh model vs the fresh object
+      let v := diffParse (k == .pomdp) (parse flags k tb) fresh v
+      -- property clause on the implementation's own outputs: nothing of text A survives
+      let v := v.failIf (!(sameImpl fresh reused)) "CassandraParser reuse_differs"
+      pure v.render
+  | _, _ => pure "bad-op hex"
+
 def parseCmd : P String := do
   let kt ← P.tok
   let k : Kind := if kt == "pomdp" then .pomdp else .mdp
@@ -218,6 +267,7 @@ def parseCmd : P String := do
 
 def handle : List String → String
   | "parse" :: rest => (P.run parseCmd rest).getD "bad-op"
+  | "reuse" :: rest => (P.run reuseCmd rest).getD "bad-op"
   | _ => "bad-op"
 
 end DrvC18
